@@ -73,7 +73,9 @@ theorem c01_url_refines (E : List Str) (q : Str) : nonResourceURLMatches E q = u
     simp only [h2, Bool.false_or]
     cases hp : positives E with
     | nil => simp [List.any_map, Function.comp_def]
-    | cons p ps => simp [List.any_map, Function.comp_def, posGlob]
+    | cons p ps =>
+      have hf : (fun x => x == q || globMatch x q) = posGlob q := by funext x; simp [posGlob]
+      simp [List.any_map, Function.comp_def, posGlob, hf]
 
 /-- **Rule level**: `RuleMatches` is the conjunction of the documented field semantics. -/
 theorem c01_rule_refines (a : Attrs) (r : Rule) : ruleMatches a r = ruleSpec a r := by
@@ -95,7 +97,6 @@ theorem c01_first_match (a : Attrs) (ps : List Policy) : matchPolicies a ps = fi
   | cons p ps ih =>
     unfold matchPolicies
     rw [List.findIdx?_cons, c01_policy_refines, ih]
-    cases policySpec a p <;> simp
 
 /-- the chosen policy has a matching rule and no earlier policy has one -/
 theorem c01_first_match_sound (a : Attrs) (ps : List Policy) (i : Nat) (h : matchPolicies a ps = some i) :
@@ -133,7 +134,7 @@ theorem c01_positive_wins (E reqs : List Str) (extra : Str → Bool) :
   · exact Or.inr hs
   · left
     rw [simpleMatches_spec, simpleMatches_spec]
-    have hps : star ∉ positives E := fun h => hs (List.mem_of_mem_filter h)
+    have hps : star ∉ positives E := fun h => hs ((List.mem_filter.1 h).1)
     have hpp : positives (positives E) = positives E := by simp [positives, List.filter_filter]
     unfold fieldSpec
     simp [hs, hps, hpp, hp]
@@ -142,22 +143,32 @@ theorem c01_positive_wins (E reqs : List Str) (extra : Str → Bool) :
     matches exactly the requests the corresponding positive list does not match. -/
 theorem c01_inverted_complement (E reqs : List Str) (extra : Str → Bool)
     (hne : E ≠ []) (hall : ∀ x ∈ E, inverted x = true)
-    (hplain : ∀ x ∈ E, x.drop 1 ≠ star ∧ inverted (x.drop 1) = false) :
-    simpleMatches E reqs extra = !simpleMatches (E.map (·.drop 1)) reqs extra := by
+    (hplain : ∀ x ∈ E, strip x ≠ star ∧ inverted (strip x) = false) :
+    simpleMatches E reqs extra = !simpleMatches (E.map strip) reqs extra := by
   rw [simpleMatches_spec, simpleMatches_spec]
   have hs : star ∉ E := fun h => by have := hall star h; simp [star_not_inverted] at this
   have hpos : positives E = [] := by
     simp only [positives, List.filter_eq_nil_iff]; intro x hx; simp [hall x hx]
-  have hneg : negatives E = E.map (·.drop 1) := by
+  have hneg : negatives E = E.map strip := by
     simp only [negatives]; congr 1; simp only [List.filter_eq_self]; exact hall
-  have hs' : star ∉ E.map (·.drop 1) := by
+  have hs' : star ∉ E.map strip := by
     intro h; rw [List.mem_map] at h; obtain ⟨x, hx, e⟩ := h; exact (hplain x hx).1 e
-  have hpos' : positives (E.map (·.drop 1)) = E.map (·.drop 1) := by
+  have hpos' : positives (E.map strip) = E.map strip := by
     simp only [positives, List.filter_eq_self]; intro y hy
     rw [List.mem_map] at hy; obtain ⟨x, hx, e⟩ := hy; subst e; simp [(hplain x hx).2]
-  have hne' : E.map (·.drop 1) ≠ [] := by simpa using hne
+  have hne' : E.map strip ≠ [] := by simpa using hne
+  have hc : E.contains star = false := by
+    cases h : E.contains star
+    · rfl
+    · exact absurd ((contains_star_iff E).1 h) hs
+  have hc' : (E.map strip).contains star = false := by
+    cases h : (E.map strip).contains star
+    · rfl
+    · exact absurd ((contains_star_iff _).1 h) hs'
+  have he : (E.map strip).isEmpty = false := by cases E <;> simp_all
   unfold fieldSpec
-  simp [hs, hs', hpos, hneg, hpos', hne']
+  simp only [hc, hc', hpos, hneg, hpos', he]
+  simp
 
 /-- an empty optional field matches everything; an empty required field matches nothing -/
 theorem c01_empty_optional (pos : Str → Bool) : fieldSpec true pos [] = true ∧ fieldSpec false pos [] = false := by
@@ -172,7 +183,14 @@ theorem c01_all_subresource (res sub : Str) (hsub : sub ≠ []) :
     | nil => exact absurd rfl hsub
     | cons c cs => simp [star]
   have h2 : inverted (star ++ [slash] ++ sub) = false := by simp [star, inverted, dash]
-  simp [fieldSpec, positives, negatives, List.filter_cons, h1, h2, posResource, hsub]
+  have hc : [star ++ [slash] ++ sub].contains star = false := by
+    simp only [List.contains_cons, List.contains_nil, Bool.or_false]; simpa [BEq.comm] using h1
+  have hp : positives [star ++ [slash] ++ sub] = [star ++ [slash] ++ sub] := by
+    have h2' : inverted (star ++ slash :: sub) = false := by simpa using h2
+    simp [positives, List.filter_cons, h2']
+  unfold fieldSpec
+  simp only [hc, hp]
+  simp [posResource, hsub]
 
 /-- trailing-`*` globs apply to users: `p*` matches every user with prefix `p` -/
 theorem c01_user_glob (p q : Str) (hp : hasPrefix q p = true) (hstar : 42 ∉ p) (hpne : inverted p = false) :
@@ -186,8 +204,11 @@ theorem c01_user_glob (p q : Str) (hp : hasPrefix q p = true) (hstar : 42 ∉ p)
       have hc : c ≠ 42 := by
         intro e; apply hstar; have : c ∈ p.reverse := by simp [hr]
         simpa [e] using this
-      simp [List.reverse_append, hr, List.dropWhile, hc]
-      rw [← List.reverse_cons, ← hr, List.reverse_reverse]
+      have hc' : (c == 42) = false := by simpa using hc
+      simp only [List.reverse_append, hr, List.reverse_cons, List.reverse_nil, List.nil_append,
+        List.singleton_append, List.dropWhile, beq_self_eq_true, hc']
+      have : p = (c :: cs).reverse := by rw [← hr, List.reverse_reverse]
+      rw [this, List.reverse_cons]
   have hsuf : hasSuffix (p ++ star) star = true := by
     simp [hasSuffix, star, List.reverse_append, hasPrefix]
   have hne : (p ++ star == star) = false ∨ p = [] := by
